@@ -52,7 +52,10 @@ def run(ctx):
     rnd = SimRandom(ctx, H.pick(["uniform", "edge", "native"]))
     minimize = bool(H.draw(2))
     multi = H.draw(5) == 4
-    alphabet = H.pick([[0, 1], [1, 2, 3], [5, 5, 5, 9], [-3, 0, 3, 1e6], [0.1, 0.2, 0.30000000000000004, 0.3]])
+    alphabet = H.pick([[0, 1], [1, 2, 3], [5, 5, 5, 9], [-3, 0, 3, 1e6], [0.1, 0.2, 0.30000000000000004, 0.3],
+                       [1, 2, float("inf")], [float("-inf"), 0, 3], [float("-inf"), 5, float("inf")]])
+    if multi and any(x in (float("inf"), float("-inf")) for x in alphabet):
+        alphabet = [1, 2, 3]  # inf - inf is NaN in a signed-sum aggregate: outside the property's premise (no NaN fitness)
     table = {}
 
     def value(g):
@@ -87,6 +90,13 @@ def run(ctx):
         k = H.pick([1, n, 1 + H.draw(n), 1 + H.draw(n)])
         form = H.pick(["list", "population", "iterator"])
         pre = H.draw(3)
+        if not multi and H.draw(3) == 2:
+            # F12/F13: the same individuals were evaluated before under ANOTHER problem that shares the fitness function but
+            # optimises in the opposite direction (still alive)
+            other = SingleObjectiveProblem(problem.ff["ff"], minimize=not minimize)
+            ctx._keepalive = other
+            evaluator.evaluate(other, members)
+            ctx.faults["represent"] += 1
         if pre:
             evaluator.evaluate(problem, members if pre == 2 else members[: n // 2])
         if form == "population":
